@@ -1178,7 +1178,7 @@ func runConsumer(thorough bool) {
 	runListen([][]*spec{{A(0, 20, selRR), C(1, 10, 0)}, {Bn(3, 40, selLV), A(4, 30, 0)}}, map[int]bool{5: true}, 9, 3, "listen/corpus-swap")
 	runListen([][]*spec{{A(0, 20, selLV), Bn(1, 10, 0)}, {C(3, 40, selRR), Bn(4, 30, 0)}}, map[int]bool{1: true}, 8, 2, "listen/corpus-swap")
 	// grid / random
-	n := 40
+	n := 24
 	if thorough {
 		n = 600
 	}
